@@ -140,9 +140,11 @@ pub fn random_history(r: &mut Rng) -> Vec<Value> {
     let start = *r.pick(&[0u64, 1, 7, 12, 4096, 65537]);
     let mut h = vec![json!({"op":"new","start":start,"slots":slots})];
     let mut used = 0;
-    for _ in 0..r.range(1, 40) {
+    // one history in ten works with multi-MiB streams (size thresholds), and is kept short
+    let big = r.chance(1, 10);
+    for _ in 0..r.range(1, if big { 12 } else { 40 }) {
         match r.below(3) {
-            0 => h.push(json!({"op":"grow","n": if r.chance(1, 5) { 0 } else { r.below(3000) }})),
+            0 => h.push(json!({"op":"grow","n": if r.chance(1, 5) { 0 } else if big && r.chance(1, 3) { *r.pick(&[65536u64, 1 << 20, (1 << 20) + 1, 3 << 20, (5 << 20) + 7]) } else { r.below(3000) }})),
             1 => h.push(json!({"op":"flush","entry":false})),
             _ => {
                 if used < slots {
